@@ -43,6 +43,8 @@ CAND = {
  "kmint": ["M2"], "kres_bad": ["B1", "KB1.obl"], "kobl_pda": ["KB1.obl"],
  # Drift integration (stand-in venue)
  "dbank": ["DB2", "B1"], "dlva": ["DB2.liq_auth"], "dvliq": ["DB2.liq", "B1.liq"], "duser": ["DB2.duser"], "dstats": ["DB2.dstats"], "dmkt": ["DM2"],
+ # Solend integration (stand-in venue)
+ "lbank": ["LB2", "B1"], "llva": ["LB2.liq_auth"], "lvliq": ["LB2.liq", "B1.liq"], "lobl": ["LB2.obl"], "lres": ["SR2"], "lprog": ["prog.unknown"],
  "signer": [], "free": [], "payer": [], "new": [],
 }
 
@@ -148,6 +150,17 @@ OPS = {
                            ("integration_acc_1","dmkt"),("drift_spot_market_vault","free"),("drift_reward_oracle","free"),("drift_reward_spot_market","free"),("drift_reward_mint","free"),
                            ("drift_reward_oracle_2","free"),("drift_reward_spot_market_2","free"),("drift_reward_mint_2","free"),("drift_signer","free"),("mint","mint"),
                            ("drift_program","kprog"),("token_program","tprog"),("system_program","sprog"))),
+ # ---- Solend integration instructions (against the stand-in venue)
+ "solend_deposit": dict(role="authority", base={"op":"solend_deposit","acct":"A7","bank":"LB1","amount":10},
+                   slots=S(("group","group"),("marginfi_account","acct"),("authority","signer"),("bank","lbank"),("signer_token_account","free"),("liquidity_vault_authority","llva"),
+                           ("liquidity_vault","lvliq"),("integration_acc_2","lobl"),("lending_market","free"),("lending_market_authority","free"),("integration_acc_1","lres"),("mint","mint"),
+                           ("reserve_liquidity_supply","free"),("reserve_collateral_mint","free"),("reserve_collateral_supply","free"),("user_collateral","free"),("pyth_price","free"),
+                           ("switchboard_feed","free"),("solend_program","lprog"),("token_program","tprog"))),
+ "solend_withdraw": dict(role="authority", base={"op":"solend_withdraw","acct":"A7","bank":"LB1","amount":5},
+                   slots=S(("group","group"),("marginfi_account","acct"),("authority","signer"),("bank","lbank"),("destination_token_account","free"),("liquidity_vault_authority","llva"),
+                           ("liquidity_vault","lvliq"),("integration_acc_2","lobl"),("lending_market","free"),("lending_market_authority","free"),("integration_acc_1","lres"),("mint","mint"),
+                           ("reserve_liquidity_supply","free"),("reserve_collateral_mint","free"),("reserve_collateral_supply","free"),("user_collateral","free"),("solend_program","lprog"),
+                           ("token_program","tprog"))),
  # ---- permissionless housekeeping
  "init_liq_record": dict(role="anyone", base={"op":"init_liq_record","acct":"A5"},
                    slots=S(("marginfi_account","free"),("fee_payer","signer"),("liquidation_record","new"),("system_program","sprog"))),
